@@ -1145,6 +1145,31 @@ fn extra_control_templates(c: &Census) -> Vec<Tmpl> {
     out
 }
 
+/// Stack instructions whose operand IS the stack pointer or is addressed through it, and the
+/// REX.B register forms: `push rsp` (pushes the value before the decrement), `pop rsp` (the
+/// loaded value wins over the increment), `push/pop r12`, `push/pop qword [rsp+disp8]` (PUSH
+/// computes the source address before, POP the destination address after RSP moves).
+fn extra_stack_templates(c: &Census) -> Vec<Tmpl> {
+    let mut out = vec![];
+    for (k, t) in c.by_id.iter() {
+        let code = k.split('|').next().unwrap_or("");
+        if matches!(code, "Push_r64" | "Pop_r64" | "Push_r16" | "Pop_r16")
+            && ["|RSP,", "|SP,", "|R12,", "|R12W,", "|RBP,", "|R8,"].iter().any(|r| k.contains(r))
+        {
+            out.push(t.clone());
+        }
+    }
+    for t in c.by_sig.values() {
+        if !matches!(t.code, Code::Push_rm64 | Code::Pop_rm64 | Code::Push_rm16 | Code::Pop_rm16) || t.form != "mem" {
+            continue;
+        }
+        if t.sig.contains("|P0|") && t.sig.contains("b64SPi-") && t.sig.contains("d1g") {
+            out.push(t.clone());
+        }
+    }
+    out
+}
+
 /// S8a: stack instructions × RSP placement × values.
 pub fn s8_stack_single(p: &Plan, sink: &mut Sink) {
     sink.tag = "S8a".into();
@@ -1167,7 +1192,8 @@ pub fn s8_stack_single(p: &Plan, sink: &mut Sink) {
         (STACK + PAGE - 16, "hi-edge"),
     ];
     let flags = [0u64, ALL_FLAGS];
-    let extra = extra_control_templates(p.census);
+    let mut extra = extra_control_templates(p.census);
+    extra.extend(extra_stack_templates(p.census));
     for t in p.canon.iter().chain(extra.iter()) {
         let d = decode_at(&t.bytes, IP).unwrap();
         let i = d.instr;
